@@ -91,5 +91,6 @@ def variants_boundary_vectors(ctx):
             # every third vector carries the reference record twice (two alignments to one reference, concatenated): the
             # per-sequence output skips both copies, so neither may be counted
             out.append({"id": "vthr-%d-%d" % (k, n), "kind": "anno", "R": list(GENOME), "qs": qs, "feats": feats, "refdup": (k + n) % 3 == 0,
+                        "dupname": (k + n) % 3 == 1,
                         "runs": [run(False, 0), run(True, k * 1000 // n)] + ([dict(run(False, 0), stdin=True)] if (k + n) % 3 == 0 else [])})
     return out
